@@ -269,6 +269,9 @@ func runNoSampler(e *simcore.Env, tp *simcore.Tape) {
 		if pipelineOn {
 			flags = append(flags, "--trace-pipeline-native-plugin-enabled=true")
 		}
+		if tp.Bool(1, 3) {
+			flags = append(flags, "--trace-vectorized-enabled=false") // the row-at-a-time query path (default: vectorized)
+		}
 		n, err := simnode.Boot(repo, e.Dir, simnode.Engines{Trace: true}, flags)
 		if err != nil {
 			e.Fail("boot", "boot-failed", "boot: %v", err)
@@ -757,6 +760,9 @@ func runSampler(e *simcore.Env, tp *simcore.Tape, gated bool) {
 			"--trace-flush-timeout=" + flush, fmt.Sprintf("--trace-max-merge-parts=%d", tp.Range(2, 8)),
 			"--trace-pipeline-native-plugin-enabled=true", "--trace-pipeline-decide-timeout=" + decideTimeout.String(),
 			fmt.Sprintf("--trace-pipeline-decide-timeout-circuit-break=%d", tp.Range(1, 3)),
+		}
+		if tp.Bool(1, 3) {
+			flags = append(flags, "--trace-vectorized-enabled=false") // the row-at-a-time query path (default: vectorized)
 		}
 		// sizes of the engine's two global semaphores (the engine uses the CPU count): small values make merges
 		// and sampler calls queue behind a sampler that overruns its deadline
